@@ -137,6 +137,9 @@ def flatten(error: Any, depth: int = 0) -> Iterator[Tuple[int, str]]:
         yield from flatten(underlying, depth + 1)
 
 
+_ADDRESS_RE = re.compile(r"0x[0-9a-fA-F]+")
+
+
 def dropped_messages(stderr: str, error: Any) -> List[str]:
     """Messages of the Error tree which do not occur, in order, in ``stderr``."""
     position = 0
@@ -144,13 +147,15 @@ def dropped_messages(stderr: str, error: Any) -> List[str]:
     lines = stderr.split("\n")
     line_index = 0
     for depth, message in flatten(error):
-        first_line = message.split("\n")[0].strip()
+        # The reference tree comes from a second parse of the same text: an object
+        # address in a message differs between the two (that is C22's business).
+        first_line = _ADDRESS_RE.sub("0x", message.split("\n")[0].strip())
         found = None
         for index in range(line_index, len(lines)):
             candidate = lines[index]
             stripped = candidate.lstrip(" *")
             stripped = re.sub(r"^At line \d+ and column \d+: ", "", stripped)
-            if stripped.strip() == first_line:
+            if _ADDRESS_RE.sub("0x", stripped.strip()) == first_line:
                 indent = len(candidate) - len(candidate.lstrip(" "))
                 # the entry's first line carries the bullet; every other line of the
                 # entry is indented by 2 (entry) + 2 x depth (nesting)
